@@ -1229,6 +1229,10 @@ def call_ext(interp, dotted: str, args: List[V], kwargs: Dict[str, V], node, cc)
         if ax is None:
             return Term("norm", [x])
         return Term("norm", [x], {"axis": Const(ax)})
+    if d in ("numpy.atleast_2d", "numpy.atleast_3d") and args:
+        if isinstance(args[0], Grid) and args[0].ndim >= (2 if d.endswith("2d") else 3):
+            return args[0]
+        return Term(d.split(".")[-1], [args[0]])
     if d in ("numpy.ravel", "numpy.atleast_1d", "numpy.asanyarray", "numpy.ascontiguousarray", "numpy.copy") and args:
         if d == "numpy.ravel":
             r = call_method(interp, args[0], "ravel", [], {}, node, None)
